@@ -664,6 +664,12 @@ def run(ctx):
     if r.violated != "RouteExact":
         from ..ctx import MachineryError
         raise MachineryError("model self-test: pre-fix routes must violate RouteExact")
+    # which labels survive a partial contraction (transcription of compute_contracted_inds), any merge order
+    ctx.model_check("C01_Inds", "MC_inds.cfg" if quick else "MC_inds_thorough.cfg", name="label-survival", require_actions=("Contract",), timeout=1200)
+    r3 = T.run_tlc("C01_Inds", "MC_inds_mut.cfg", ctx.spec_dir, workers=4, allow_violation=True, scratch=ctx.scratch, timeout=300)
+    if r3.violated != "NoEarlySum":
+        from ..ctx import MachineryError
+        raise MachineryError("model self-test: summing a hyper label early must violate NoEarlySum")
     ctx.extra["model_selftest"] = "routes as before the fixes (exponent dropped by contract_tags' early return and by TNLinearOperator) violate RouteExact"
 
     ncases, nroutes = (160, 10) if quick else (900, 16)
